@@ -573,7 +573,7 @@ def compression(rep, prog):
         rep.saw(fn=f)
         for m, pair in table.items():
             outs = run_roles(prog, f, ('self', 'data'), args={'self': enum_const(prog, 'CompressionAlgorithm', m)})
-            rets = sorted(set(taint.qualify_imports(render(s.ret), f.module).replace(', wbits=', ', ').replace('-zlib.MAX_WBITS', '-15')
+            rets = sorted(set(norm_term(taint.qualify_imports(render(s.ret), f.module)).replace(', wbits=', ', ').replace('-zlib.MAX_WBITS', '-15')
                               for s in outs if s.raised is None))      # zlib.decompress(data, wbits=-15); zlib.MAX_WBITS is 15
             rep.check(rets == [pair[idx]], 'C03.6', 'CompressionAlgorithm.%s' % name, '%s -> %s' % (m, rets),
                       '%s arm of %s must be the inverse of its sibling' % (name, m), where=f.where, expected=pair[idx], found=rets, scenario=m)
